@@ -10,6 +10,6 @@ CONFIG = dict(
     modelled=[
         "as C17 kind 2; in addition: the buffers returned by the single-object entry points are consumed at once by the caller (ToByteSlice); the child of a composite object is a fixed slice of the parent, the slicer is not used",
         "the queued replicator's ReplicateSingle/ReplicateComposite (source read with the replication as buffer task, C15) are not driven",
-        "clause 27 (success of a single-object entry point needs a successful sink read) reads the harness's event log, which the agreement test does not constrain",
+        "clause 27 (success of a single-object entry point needs a successful sink read or put by that caller) reads the harness's event log, which the agreement test does not constrain",
     ],
 )
